@@ -115,6 +115,20 @@ def harnesses(tier, seed):
     for h in hs:
         if h.name.startswith('regularised-step'):
             h.home = 'C06'
+    # "objective values include h at the stored point": every Model operation that writes an objective value, with a regulariser
+    # (and with internal scaling, where h must see the user's units) - C17's one-operation harnesses
+    from . import c17
+    for h in c17.harnesses('quick', seed):
+        if h.params['with_h'] and h.params['npt_so_far'] == h.params['num_pts'] and \
+                h.params['op'] in ('change_point', 'add_new_sample', 'add_new_point', 'save_point_abs', 'save_point_rel', 'get_final_results'):
+            h.home = 'C06'
+            h.name = 'model:' + h.name
+            hs.append(h)
+    from . import c04
+    hs += [h_ for h_ in c04.harnesses('quick', seed) if h_.name.startswith('ratio[') and 'h=1' in h_.name]
+    for h in hs:
+        if h.name.startswith('ratio['):
+            h.home = 'C06'
     return hs
 
 
